@@ -1,14 +1,16 @@
 #!/bin/bash
 # tools/bounded.sh <pkgdir> <test-file> <run-regex> [timeout]  -- bounded stand-in: runs a test against the real
-# package via go test -overlay (nothing written to /repo); prints the test's BOUNDED line; exit 1 on failure.
+# package via go test -overlay (nothing written to the repository); prints the test's BOUNDED line; exit 1 on failure.
+# VERIF_REPO (default /repo) selects the tree (the must-fail selftest points it at a scratch worktree).
 set -u
 pkg=$1; file=$2; run=$3; to=${4:-600s}
+repo=${VERIF_REPO:-/repo}
 export PATH=/opt/veriftools/go1.26.8/bin:$PATH GOTOOLCHAIN=local GOFLAGS=-mod=mod GOPROXY=off GOSUMDB=off
 ov=$(mktemp /var/tmp/ov-XXXXXX.json)
-printf '{"Replace": {"/repo/%s/zz_bounded_%s": "%s"}}\n' "$pkg" "$(basename $file)" "$(readlink -f $file)" > $ov
-out=$(cd /repo && go test -overlay $ov -vet=off -count=1 -timeout $to -run "$run" -v ./$pkg/ 2>&1)
+printf '{"Replace": {"%s/%s/zz_bounded_%s": "%s"}}\n' "$repo" "$pkg" "$(basename $file)" "$(readlink -f $file)" > $ov
+out=$(cd $repo && go test -overlay $ov -vet=off -count=1 -timeout $to -run "$run" -v ./$pkg/ 2>&1)
 rc=$?
 rm -f $ov
 echo "$out" | grep "^BOUNDED \|^KNOWN-FINDING" || true
-if [ $rc -ne 0 ]; then echo "$out" | tail -40; fi
+if [ $rc -ne 0 ]; then echo "$out" | grep -v "INFO\|DEBG\|WARN" | tail -40; fi
 exit $rc
